@@ -658,8 +658,23 @@ fn step(w: &mut World, op: &Op, st: &mut Stats) -> Result<(), (&'static str, Str
                     vec_check(&out, &exp, "col_to_row_major")?;
                 }
                 _ => {
+                    // first an impossible request on the slice-level function (a length the row count does
+                    // not divide): it must be rejected, and the well-formed request that follows must be
+                    // unaffected by whatever the rejected one left behind
+                    let mut bad = data.clone();
+                    bad.push(0.5);
+                    let nr = if bad.len() % 2 != 0 { 2 } else if bad.len() % 3 != 0 { 3 } else { 0 };
+                    if nr > 0 && bad.len() > nr {
+                        st.inc("transpose_fn.rejected_request_first");
+                        if let Ok(v) = catch(|| transpose(&bad, nr)) {
+                            return Err(("impossible_accepted", format!("transpose of {} values with {} rows returned {} values instead of panicking", bad.len(), nr, v.len())));
+                        }
+                    }
                     let out = catch(|| transpose(&data, r)).map_err(|e| ("valid_rejected", format!("transpose panicked: {}", e)))?;
                     vec_check(&out, &mo.t().d, "transpose(slice)")?;
+                    // ... and the method forms on the live object as well
+                    let live_t = catch(|| w.ms[*m].t()).map_err(|e| ("valid_rejected", format!("t() panicked: {}", e)))?;
+                    vec_check(&live_t.data.v, &mo.t().d, "t() after a rejected slice transpose")?;
                 }
             }
         }
@@ -865,6 +880,19 @@ fn step(w: &mut World, op: &Op, st: &mut Stats) -> Result<(), (&'static str, Str
             let g = |i: usize, j: usize| ccw.data[i * 3 + j];
             if (g(p, p) - c).abs() > e || (g(q, q) - c).abs() > e || (g(q, p) - s).abs() > es || (g(p, q) + s).abs() > es {
                 return Err(("rotation_wrong", format!("rotation_matrix_ccw({:e}, axis {}) does not rotate counter-clockwise by the angle", th, axis)));
+            }
+            // a second angle right away that differs from the first only in mantissa bits 6..23 (a relative
+            // change of ~4e-9): its matrix must be built from ITS sine and cosine
+            let th2 = f64::from_bits(th.to_bits() ^ 0x0000_0000_00FF_FFC0);
+            if th2.is_finite() && th2 != th && th.abs() > 1e-3 {
+                st.inc("rotation.nearby_angle");
+                let m2 = catch(|| rotation_matrix_ccw(th2, ax(*axis))).map_err(|e| ("valid_rejected", format!("rotation_matrix_ccw panicked: {}", e)))?;
+                let (s2, c2) = (th2.sin(), th2.cos());
+                let g2 = |i: usize, j: usize| m2.data[i * 3 + j];
+                let es2 = e * s2.abs().max(f64::MIN_POSITIVE).min(1.0).max(1e-300);
+                if m2.data.len() != 9 || (g2(p, p) - c2).abs() > e || (g2(q, q) - c2).abs() > e || (g2(q, p) - s2).abs() > es2 || (g2(p, q) + s2).abs() > es2 {
+                    return Err(("rotation_wrong", format!("rotation_matrix_ccw({:e}, axis {}) requested right after the neighbouring angle {:e} is not the rotation by its own angle", th2, axis, th)));
+                }
             }
             push_m(w, ccw.clone(), MM { r: 3, c: 3, d: ccw.data.v.clone() });
         }
